@@ -331,6 +331,34 @@ def check(case, M):
     else:
         if cfg.programs() != -1 and terms and any(t[1] for t in terms):
             pass
+        # ---- model of CFG.infinite (lean/PS/Model/CfgInfinite.lean) and unbounded spec wtI
+        probe = terms[:400] + neigh
+        probe_repo = members[:400] + neigh_repo
+        ians = M.ask([Sym("c01.infinite"), pw, 200000, [term_wire(t) for t in probe]])
+        oracle_inf = TypedTerms(prims, forb, request, 50, 0, const_types, rec)
+        for t, sb in zip(probe, ians[1]):
+            if (sb[0] == "1") != oracle_inf.member(t):
+                raise RuntimeError(f"Lean spec wtITop and the Python oracle disagree on {term_str(t)}")
+        if ians[0] == "some":
+            model_tbl = sorted(json.dumps(_canon_entry(e)) for e in ians[2][2])
+            impl_tbl = sorted(json.dumps(_canon_entry(_plain(e))) for e in W.cfg_wire(cfg)[2])
+            if model_tbl != impl_tbl:
+                fail("corr", "rule table of CFG.infinite differs from the model's table", f"{len(impl_tbl)} vs {len(model_tbl)} non-terminals; first difference: {sorted(set(impl_tbl) ^ set(model_tbl))[:1]}")
+            if str(ians[3]) != str(cfg.programs()):
+                fail("corr", "programs() of CFG.infinite differs from the model (programsInf: dict order)", f"{cfg.programs()} vs {ians[3]}")
+            if cfg.programs() >= 0 and cfg.programs() < len(terms):
+                fail("oracle", "programs() of CFG.infinite is smaller than the number of well-typed terms", f"{cfg.programs()} vs at least {len(terms)}")
+            for t_repo, sb, b in zip(probe_repo, ians[1], ians[4]):
+                if b[0] != b[1]:
+                    raise RuntimeError("containsRec and gen disagree (contradicts theorem C01_contains_gen)")
+                if b[0] != sb[1]:
+                    raise RuntimeError("membership in the model's infinite table differs from wtI (contradicts theorem C01_infinite_lang)")
+                impl_in = t_repo in cfg
+                if (b[0] == "1") != impl_in:
+                    fail("corr", "membership in CFG.infinite differs from the model's table", f"{t_repo}: impl={impl_in} model={b[0]}")
+                    break
+        else:
+            fail("corr", "model builds no infinite table where the implementation does", "")
     for t, t_repo in zip(terms, members):
         if not (t_repo in cfg):
             fail("oracle", "a well-typed term is not a member", str(t_repo))
